@@ -79,7 +79,7 @@ example : (1 : ℚ) ≠ 0 := one_ne_zero
 /-- the whole 1-D spectrum entry is the sum of these exact interval integrals over the clamped grid -/
 theorem C05_1D_sum (n N : ℕ) (x φ : ℕ → ℚ) (d : ℕ) :
     fromPhi1D n N x φ d = ∑ k ∈ range (N - 1), entry1D n d (fun k => clamp (x k)) φ k := by
-  rw [fromPhi1D, sumRange_eq]
+  rw [fromPhi1D_def, sumRange_eq]
 
 /-- the tabulated 1-D function run by the driver is the pointwise definition -/
 theorem C05_fast_1D (n N : ℕ) (x φ : ℕ → ℚ) (d : ℕ) (hd : d ≤ n) :
@@ -89,13 +89,13 @@ theorem C05_fast_1D (n N : ℕ) (x φ : ℕ → ℚ) (d : ℕ) (hd : d ≤ n) :
 
 theorem C05_linear (n N : ℕ) (x φ ψ : ℕ → ℚ) (a b : ℚ) (d : ℕ) :
     fromPhi1D n N x (fun k => a * φ k + b * ψ k) d = a * fromPhi1D n N x φ d + b * fromPhi1D n N x ψ d := by
-  simp only [fromPhi1D, sumRange_eq, entry1D_eq_entryG, entryG_linear, Finset.sum_add_distrib, Finset.mul_sum]
+  simp only [fromPhi1D_def, sumRange_eq, entry1D_eq_entryG, entryG_linear, Finset.sum_add_distrib, Finset.mul_sum]
 
 /-- **mass**: the entries of the 1-D spectrum add up to the trapezoid mass of φ on the clamped grid -/
 theorem C05_mass (n N : ℕ) (x φ : ℕ → ℚ)
     (hdist : ∀ k, k + 1 < N → clamp (x (k+1)) ≠ clamp (x k)) :
     ∑ d ∈ range (n+1), fromPhi1D n N x φ d = trapz N (fun k => clamp (x k)) φ := by
-  simp only [fromPhi1D, sumRange_eq, entry1D_eq_entryG, trapz]
+  simp only [fromPhi1D_def, sumRange_eq, entry1D_eq_entryG, trapz]
   rw [Finset.sum_comm]
   refine Finset.sum_congr rfl fun k hk => ?_
   have hk' : k < N - 1 := mem_range.mp hk
